@@ -36,7 +36,8 @@ const (
 var (
 	ModuleAddress = authtypes.NewModuleAddress(ModuleName)
 
-	DustCollectorName = fmt.Sprintf("%s/%s", ModuleName, "dust_collector")
+	DustCollectorName    = fmt.Sprintf("%s/%s", ModuleName, "dust_collector")
+	DustCollectorAddress = authtypes.NewModuleAddress(DustCollectorName)
 )
 
 // ====================================================================================================
